@@ -363,7 +363,7 @@ func c11Query(w *World, m *Model, op Op, i int) bool {
 				return true
 			}
 		}
-		if len(mi.Vecs) <= 2*mi.Cfg.M && setStr(got) != setStr(want) {
+		if mi.exact() && setStr(got) != setStr(want) {
 			w.Fail("scope_exact", "scoped_search_incomplete", fmt.Sprintf("query %d graph-scoped VSearch(root=%s rels=%v dir=%q depth=%d) returned [%s], reachable live vectors are [%s]", i, op.ID, op.Rels, op.Dir, op.Depth, setStr(got), setStr(want)), i)
 		}
 		return len(want) > 1
